@@ -1,19 +1,7 @@
-#![allow(dead_code)]
 //! edp-rs verification harness: `verif <ID> --tier quick|thorough --seed N [--replay file]`
 
-mod alloc_track;
-mod engine;
-mod gen;
-mod isolate;
-mod mutate;
-mod netbed;
-mod nodebed;
-mod props;
-mod sched;
-mod terms;
-mod universe;
-
-use engine::{Run, Tier};
+use verif_lib::engine::{Run, Tier};
+use verif_lib::{alloc_track, engine, isolate, props};
 
 #[global_allocator]
 static GLOBAL: alloc_track::Counting = alloc_track::Counting;
@@ -52,6 +40,20 @@ fn main() {
     }
     if id == "__c16probe" {
         props::c16::probe();
+        return;
+    }
+    if id == "__fuzz" {
+        // verif __fuzz <property> <target> <runs> [seed]: one fuzz campaign by hand
+        engine::install_panic_hook();
+        let mut run = Run::new(&args[2], Tier::Thorough, args.get(5).and_then(|s| s.parse().ok()).unwrap_or(1));
+        verif_lib::fuzzbridge::campaign(&mut run, &args[3], args[4].parse().unwrap_or(100_000), 300);
+        println!("{}", serde_json::to_string_pretty(run.campaigns.last().unwrap_or(&serde_json::Value::Null)).unwrap());
+        for i in &run.inconclusive {
+            println!("INCONCLUSIVE: {i}");
+        }
+        for v in &run.violations {
+            println!("VIOLATION {} {} {}", v.signature, engine::truncate(&v.detail, 600), v.replay);
+        }
         return;
     }
     if id == "__worker" {
